@@ -3,8 +3,10 @@
      {"ev":"Reset","sid":k}
      {"ev":"Split","n":..,"t":..,"ok":bool,"ids":[ids of the returned shares, sorted],...}
      {"ev":"Recover","S":[ranks],"err":bool,"secretEq":bool,"pubEq":bool}
-     {"ev":"Combine","S":[ranks],"sub":{kind,pos,arg},"setupErr":bool,"aggErr":bool,"altered":bool,"aggEq":bool,
-      "verifies":bool}
+     {"ev":"Combine","S":[ranks],"sub":{kind,pos,arg},"setupErr":bool,"aggErr":bool,"altered":bool,"aggEqAll":bool,
+      "aggEqAny":bool,"verifiesAll":bool,"verifiesAny":bool}
+   The tbls functions range over Go maps, so the executor repeats each of them: "All" = the relation held in every
+   repetition, "Any" = in at least one.  A relation the model says holds must hold in ALL, one it says fails in NONE.
    Each event is bound to the machine's action and the logged relations must be the model's (obs').  Where the
    statement is silent the binding is open: whether a substituted combination fails inside ThresholdAggregate or only
    at Verify ("aggErr"), and which ids ThresholdSplit hands out (only: n of them, pairwise distinct). *)
@@ -18,7 +20,9 @@ TRecover == /\ IsEvent("Recover") /\ Recover(SeqToSet(Ev.S))
             /\ Ev.err = FALSE /\ Ev.secretEq = obs'.secretEq /\ Ev.pubEq = obs'.pubEq
 TCombine == /\ IsEvent("Combine") /\ Combine(SeqToSet(Ev.S), Ev.sub)
             /\ Ev.setupErr = FALSE
-            /\ Ev.altered = obs'.altered /\ Ev.aggEq = obs'.aggEq /\ Ev.verifies = obs'.verifies
+            /\ Ev.altered = obs'.altered
+            /\ IF obs'.aggEq THEN Ev.aggEqAll ELSE ~Ev.aggEqAny
+            /\ IF obs'.verifies THEN Ev.verifiesAll ELSE ~Ev.verifiesAny
             /\ (obs'.verifies => Ev.aggErr = FALSE)
 TraceNext == TReset \/ TSplit \/ TRecover \/ TCombine
 TraceSpec == TraceInit /\ [][TraceNext]_tvars
